@@ -13,6 +13,7 @@ from harness.common import OutcomeSelector, cex_args, mk, tempdir
 PROPERTY = "C10"
 FUNCTIONS = [
     "flow.record.stream:RecordStreamReader.__iter__",
+    "flow.record.stream:RecordStreamReader.__init__",
     "flow.record.adapter.jsonfile:JsonfileReader.__iter__",
     "flow.record.adapter.avro:AvroReader.__iter__",
     "flow.record.adapter.csvfile:CsvfileReader.__iter__",
@@ -329,6 +330,13 @@ KIND_EXPRS = [
     "r.n == 'three'",
     "Type.record.k == 3",
     "len(fields('string')) == 1",
+    # true on records that lack the fields they mention (negation, disjunction with a field-free test)
+    "not (r.x == 3)",
+    "not r.w",
+    "name(r) == 'grp' or r.n == 3",
+    "not (r.k == 3) and not (r.n == 3)",
+    "not has_field(r, 'k')",
+    "not ('evil' in Type.string)",
 ]
 _KINDS = None
 
@@ -365,6 +373,64 @@ def _outcome(sel, rec):
         return type(e).__name__
 
 
+def _stream_of(records):
+    """bytes of a record stream holding the records"""
+    import io
+
+    from flow.record.stream import RecordStreamWriter
+
+    class Keep(io.BytesIO):
+        def close(self):
+            pass
+
+    buf = Keep()
+    w = RecordStreamWriter(buf)
+    for r in records:
+        w.write(r)
+    w.flush()
+    w.fp = None
+    return buf.getvalue()
+
+
+def _read_positions(data, selector):
+    import io
+
+    from flow.record.stream import RecordStreamReader
+
+    out = []
+    try:
+        for r in RecordStreamReader(io.BytesIO(data), selector=selector):
+            out.append(repr(r))
+    except Exception as e:  # noqa: BLE001
+        return f"{type(e).__name__}: {e}"
+    return out
+
+
+_FRESH = {}
+
+
+def _fresh_table(engine):
+    """{(program, kind): verdict of a fresh selector in a FRESH PROCESS that has seen no other record} - process-wide state (a module
+    level cache keyed by a type name) would otherwise be shared by the history under test and by its reference."""
+    import subprocess
+    import sys
+
+    if engine in _FRESH:
+        return _FRESH[engine]
+    table = {}
+    code = ("import json, sys\nfrom harness import C10\nfrom flow.record.selector import CompiledSelector, Selector\n"
+            "j = int(sys.argv[2]); cls = Selector if sys.argv[1] == 'i' else CompiledSelector; K = C10.kinds()\n"
+            "print(json.dumps([C10._outcome(cls(e), K[j]) for e in C10.KIND_EXPRS]))")
+    for j in range(len(kinds())):
+        out = subprocess.run([sys.executable, "-c", code, engine, str(j)], capture_output=True, text=True, timeout=120, env=dict(os.environ, PYTHONPATH=":".join(p for p in sys.path if p)))
+        if out.returncode != 0:
+            raise RuntimeError("fresh-process reference failed: " + out.stderr[-300:])
+        for e, v in zip(KIND_EXPRS, json.loads(out.stdout.strip().splitlines()[-1])):
+            table[(e, j)] = v
+    _FRESH[engine] = table
+    return table
+
+
 def kind_history(engine: str, first: int, k: int):
     """One selector object matches a symbolic history of k records of different kinds: every verdict equals the verdict of a fresh
     selector on that record alone, and no record changes (path-exhaustive over histories; the concrete part runs untraced)."""
@@ -374,7 +440,7 @@ def kind_history(engine: str, first: int, k: int):
     cls = Selector if engine == "i" else CompiledSelector
     K = kinds()
     nk = len(K)
-    fresh = {(e, j): _outcome(cls(e), K[j]) for e in KIND_EXPRS for j in range(nk)}
+    fresh = _fresh_table(engine)
 
     def check(c1: int, c2: int, c3: int) -> bool:
         """
@@ -390,10 +456,19 @@ def kind_history(engine: str, first: int, k: int):
                     hist.append(j)
         with NoTracing():
             packs = [repr(r._pack()) for r in K]
+            data = _stream_of([K[j] for j in hist])
             for e in KIND_EXPRS:
                 sel = cls(e)
                 for j in hist:
                     if _outcome(sel, K[j]) != fresh[(e, j)]:
+                        return False
+                # the real binary reader with this selector (text and object form) yields exactly the records a fresh selector keeps
+                want = [repr(K[j]) for j in hist if fresh[(e, j)] is True]
+                if any(isinstance(fresh[(e, j)], str) for j in hist):
+                    continue  # the program is undefined on one of the records: reading aborts there, which C08 covers
+                for given in (cls(e), e if engine == "i" else cls(e)):
+                    got = _read_positions(data, given)
+                    if got != want:
                         return False
             return packs == [repr(r._pack()) for r in K]
 
@@ -518,7 +593,9 @@ def replay(res):
         v = cex_args(res, ["c1", "c2", "c3"])
         K = kinds()
         hist = [a["first"]] + [c for c in [v.get("c1"), v.get("c2"), v.get("c3")][: a["k"] - 1] if isinstance(c, int) and 0 <= c < len(K)]
-        # through a real stream: one reader (one selector object) over the history vs. reading everything and testing each record afresh
+        # through a real stream file: one reader (one selector object) over the history vs. the verdicts of fresh selectors in fresh
+        # processes that have seen no other record
+        fresh = _fresh_table(a["engine"])
         with tempdir() as d:
             path = os.path.join(d, "h.records")
             w = RecordWriter(path)
@@ -527,19 +604,14 @@ def replay(res):
             w.flush()
             w.close()
             for e in KIND_EXPRS:
+                if any(isinstance(fresh[(e, j)], str) for j in hist):
+                    continue
                 try:
                     with RecordReader(path, selector=cls(e)) as rd:
                         got = [repr(r) for r in rd]
                 except Exception as ex:  # noqa: BLE001
                     got = type(ex).__name__
-                want = []
-                try:
-                    with RecordReader(path) as rd:
-                        for r in rd:
-                            if cls(e).match(r):
-                                want.append(repr(r))
-                except Exception as ex:  # noqa: BLE001
-                    want = type(ex).__name__
+                want = [repr(K[j]) for j in hist if fresh[(e, j)] is True]
                 if got != want:
                     return {"reproduced": True, "key": f"C10/kinds/{a['engine']}/{e}", "what": f"{cls.__name__}({e!r}) over the history of record kinds {hist}: the reader's selector keeps {got}, filtering afterwards keeps {want}"[:900], "input": {"expr": e, "history": hist}}
         return {"reproduced": False, "what": f"history {hist}: reading with the selector equals filtering afterwards for every program"}
